@@ -521,6 +521,12 @@ var corpus = func() []directive {
 		}
 		out = append(out, directive{name: "first-new-" + kind + "-block-ahead", bTip: 4, ahead: 2, kind: kind, pos: "first-new", bs: 2, length: 5})
 	}
+	// batch size left unset: honest file from height 0 extending level stores
+	for _, bTip := range []int{0, 3} {
+		for _, bs := range []int{0, -1} {
+			out = append(out, directive{name: "batch-size-unset", bTip: bTip, kind: "honest", bs: bs, length: 4})
+		}
+	}
 	// the context is cancelled before / during validation and the file is corrupt after the point validation had
 	// reached: nothing of it may reach the stores, whatever the batch size
 	for _, kind := range []string{"badprev", "badpow", "honest"} {
@@ -792,7 +798,9 @@ func oneCaseD(t *tr.W, r *rand.Rand, forceKind string, dir *directive) {
 			kind = "honest"
 		}
 	}
-	bs := pick(r, 1, 1, 2, 2, 3, 7, 1000)
+	// 0 / negative: WriteBatchSizePerRegion left unset - NewHeadersImport fills in its default (what neutrino's own
+	// Config does unless the user sets a batch size)
+	bs := pick(r, 1, 1, 2, 2, 3, 7, 1000, 0, 0, -1)
 	failB, failF := -1, -1
 	switch r.Intn(8) {
 	case 0:
@@ -824,7 +832,11 @@ func oneCaseD(t *tr.W, r *rand.Rand, forceKind string, dir *directive) {
 	}
 	// context cancellation: noticed first at poll `cancelAt` (see pollCtx)
 	cancelAt := -1
-	nbat := (len(spec.blocks) + bs - 1) / bs
+	effBs := bs
+	if effBs <= 0 {
+		effBs = 65536 // chainimport's defaultWriteBatchSizePerRegion (the Lean side takes it from the regenerated facts)
+	}
+	nbat := (len(spec.blocks) + effBs - 1) / effBs
 	if dir != nil {
 		cancelAt = dir.cancel - 1
 	} else if !focus && r.Intn(4) == 0 {
